@@ -67,14 +67,21 @@ func (t c01Ty) kindTok() string {
 }
 
 type c01Var struct {
-	id int
-	ty c01Ty
-	ro bool // not assignable by generated statements (loop variables, counters)
+	id    int
+	ty    c01Ty
+	ro    bool    // not assignable by generated statements (loop variables, counters)
+	alias *c01Var // the outer variable whose NAME this one carries (a shadowing declaration); nil otherwise
 }
 
+// name: the source name.  A shadowing variable is printed with the name of the variable it hides;
+// the Lean table (and the generator's scopes) know it by its own id, i.e. names are resolved there.
 func (v *c01Var) name() string {
 	if v == nil || v.id == 0 {
 		return "_"
+	}
+
+	if v.alias != nil {
+		return v.alias.name()
 	}
 
 	return "v" + strconv.Itoa(v.id)
@@ -92,6 +99,7 @@ type c01Func struct {
 	valRecv bool
 	hasDefer bool
 	rec      bool // first parameter is the recursion depth
+	scanner  bool // returns from inside a `for … range` loop
 }
 
 // c01Node is an expression or a statement.
